@@ -17,7 +17,8 @@ CONSTANTS MeshSet,     \* meshes [lo, c, n]
           NVSet,       \* component counts
           PatSet,      \* value patterns (shifts into the vector pool)
           NormKinds,   \* kinds of norm specification
-          MaxHist      \* number of modifying calls explored after construction
+          MaxHist,     \* number of modifying calls explored after construction
+          MaxQHist     \* queries are issued from states with at most this many modifying calls
 
 VARIABLES mesh, nv, p0, v0, val, mag, valid, hist, act, obs
 vars == <<mesh, nv, p0, v0, val, mag, valid, hist, act, obs>>
@@ -114,7 +115,7 @@ MkNormed == /\ act[1] = "new" /\ \A q \in DOMAIN valid : valid[q]
             /\ mag' = "N"
             /\ UNCHANGED <<mesh, nv, p0, v0>>
 
-IsQuery == act[1] \in {"norm", "orientation"}
+IsQuery == act[1] \in {"norm", "orientation"} \/ Len(hist) > MaxQHist
 (* field.norm (getter) *)
 QNorm == /\ ~IsQuery
          /\ act' = <<"norm">>
